@@ -176,6 +176,8 @@ let make_oracles cfg : oracles =
              nat_of_int (if starts_with d "nomx." then 1 else if starts_with d "nullmx." then 2 else 0));
     o_qq = (fun k -> match List.nth_opt plan (int_of_nat k) with
         | None | Some "ok" -> QQ_ok
+        | Some "ns" -> QQ_nostart        (* the child is gone when queue_init() looks (forced schedule, harness/session/wraps.c) *)
+        | Some "nh" -> QQ_die_hdr        (* queue_init() misses its death: EPIPE at the Received: header *)
         | Some p when starts_with p "exit:" ->
             let c = int_of_string (String.sub p 5 (String.length p - 5)) in if c = 0 then QQ_ok else QQ_exit (nat_of_int c)
         | Some p when starts_with p "ce:" -> QQ_die_write
@@ -372,7 +374,9 @@ let simple_check (o : toracles) (items : string list) (toks : tok list) hand : s
                  go rest'
              | [] -> ()
              | _ -> raise Not_simple)
-          end else (emit [rep]; go rest) end
+          end else begin
+            if r = 451 then incr k;      (* queue_init() failed: an invocation without 354 *)
+            emit [rep]; go rest end end
         else if starts_with u "AUTH " then begin
           (* a 235 means "authenticated"; the name is the oracle's (the reply does not carry it) *)
           (if r = 235 then
